@@ -391,4 +391,47 @@ func init() {
 	}
 }
 
+const expPkg = repoModule + "/internal/expiration"
+
+func init() {
+	registry["C13"] = func(tier string) []*Job {
+		var js []*Job
+		js = append(js, mk("c13.tables", expPkg, "ZZ_C13_Tables", nil, func(b *Bounds) { b.Unwind = 8 }))
+		j := mk("c13.placement", expPkg, "ZZ_C13_Placement", map[string]int{"canary": 0}, func(b *Bounds) { b.Unwind = 8; b.ConcretiseMax = 8 })
+		j.Labels = []string{"c13.placement.bucket", "c13.placement.invariant", "c13.placement.linked"}
+		js = append(js, j)
+		j = mk("c13.placement.canary", expPkg, "ZZ_C13_Placement", map[string]int{"canary": 1}, func(b *Bounds) { b.Unwind = 8; b.ConcretiseMax = 8 })
+		j.Canary = "c13.placement.canary"
+		js = append(js, j)
+		for L := 0; L <= 4; L++ {
+			md := 0
+			if tier == "quick" && L <= 2 {
+				md = 3
+			}
+			j := mk(sprintf("c13.sweep.level%d.maxdelta%d", L, md), expPkg, "ZZ_C13_Sweep", map[string]int{"level": L, "maxdelta": md, "canary": 0},
+				func(b *Bounds) { b.Unwind = 70; b.MaxPaths = 500000; b.MaxWallS = 1500 })
+			j.Labels = []string{"c13.sweep.progress_within_one_tick", "c13.sweep.fires_only_expired", "c13.sweep.invariant_reestablished"}
+			js = append(js, j)
+		}
+		j = mk("c13.sweep.canary", expPkg, "ZZ_C13_Sweep", map[string]int{"level": 1, "maxdelta": 2, "canary": 1}, func(b *Bounds) { b.Unwind = 70 })
+		j.Canary = "c13.sweep.canary"
+		js = append(js, j)
+		for _, j := range js {
+			j.Prefer = "bits"
+		}
+		steps := 2
+		if tier == "thorough" {
+			steps = 3
+		}
+		for _, re := range []int{0, 1} {
+			js = append(js, mk(sprintf("c13.cache.readsextend%d", re), rootPkg, "ZZ_C13_Cache", map[string]int{"nkeys": 2, "steps": steps, "readsextend": re, "canary": 0},
+				func(b *Bounds) { b.Unwind = 70; b.MaxPaths = 500000 }))
+		}
+		cj := mk("c13.cache.canary", rootPkg, "ZZ_C13_Cache", map[string]int{"nkeys": 1, "steps": 1, "readsextend": 0, "canary": 1}, func(b *Bounds) { b.Unwind = 70 })
+		cj.Canary = "c13.cache.canary"
+		js = append(js, cj)
+		return js
+	}
+}
+
 func sprintf(f string, a ...interface{}) string { return fmt.Sprintf(f, a...) }
